@@ -92,6 +92,9 @@ func record(drm uint8, op string, args, res []string) {
 func (g *G) arg(spec string, op string) string {
 	p := strings.SplitN(spec, ":", 2)
 	codec, name := p[0], p[1]
+	if s, ok := g.textArg(codec, name, op); ok {
+		return s
+	}
 	switch codec {
 	case "Bool":
 		return sBool(g.chance(0.5))
@@ -347,6 +350,7 @@ func kernelMode(g *G, n int, filter string) {
 				args[0] = g.floatishDecimal().String() // in and around the binary ranges, half-way points
 			}
 			fixup(op, sig, args)
+			g.textFixup(op, sig, args)
 			emit(drm, op, args)
 		}
 	}
